@@ -13,6 +13,7 @@ the lines of rejected events are decoded.
 import json
 import os
 import re
+import threading
 import time
 import vlib
 
@@ -316,8 +317,19 @@ def write_pool(ctx, pool):
     return pf
 
 
+def serialize_sub(ctx):
+    """ctx.sub numbers the scratch directories with an unprotected counter; this check calls it from many threads."""
+    lock, orig = threading.Lock(), ctx.sub
+
+    def sub(name):
+        with lock:
+            return orig(name)
+    ctx.sub = sub
+
+
 # ------------------------------------------------------------------------------- entry points
 def run(ctx):
+    serialize_sub(ctx)
     t0 = time.time()
     pool, scripts, stats = generate(ctx)
     t1 = time.time()
@@ -357,6 +369,7 @@ def replay(ctx, path):
     with open(path) as fh:
         doc = json.load(fh)
     sc = doc["replay"]["script"]
+    serialize_sub(ctx)
     pool = get_pool(ctx)
     binp = ctx.go_build("qlang")
     acc = new_acc()
